@@ -135,3 +135,8 @@ var d5Exceptions = map[string]string{
 var p2NoClose = map[string]string{
 	"fun.Transform.Pipe": "documented: the returned processor/producer pair is driven by the caller; the channel is never closed",
 }
+
+// O1: tabled discarded results in package srv.
+var o1Exceptions = map[string]string{
+	"srv.(*Service).Worker$1/Service.Start": "Service.Worker starts the service if it is not running yet and then waits for it; an ErrServiceAlreadyStarted/ErrServiceReturned answer is expected there and the outcome is taken from waitFor",
+}
